@@ -282,3 +282,112 @@ Lemma nic_tables_ok : forallb nic_ok nic_rows = true.
 Proof. vm_compute. reflexivity. Qed.
 Theorem frontend_rows_equal_model : forall r, In r nic_rows -> nic_ok r = true.
 Proof. intros r Hin. exact (proj1 (forallb_forall _ _) nic_tables_ok r Hin). Qed.
+
+(* ------------------------------------------------------------------ two native calls, retries, wait() *)
+Ltac case_pair := match goal with e1 : err, e2 : err, s : pstate, z : bool |- _ => destruct e1, e2, s, z end;
+                  cbn in *; try discriminate; try congruence.
+
+Lemma pair_windows_b : forall meth site1 site2 e1 e2 s z,
+  err_ok Windows e1 && err_ok Windows e2 = true ->
+  match pair_demanded Windows meth site1 site2 e1 e2 s z with
+  | Some r => res_eqb (pair_outcome Windows meth site1 site2 e1 e2 s z) r
+  | None => true
+  end = true.
+Proof.
+  intros meth site1 site2 e1 e2 s z.
+  unfold pair_demanded, second_route, pair_outcome, demanded, recovery, contract, nosuch_failure, method_outcome, inner.
+  destruct (g_win_cmdline_pair meth site1 site2), (g_win_fallback meth site1), (seq site2 "proc_info"), (g_win_partial meth),
+    e1, e2, s, z; vm_compute; intro H; (reflexivity || discriminate H).
+Qed.
+
+Lemma pair_windows : forall meth site1 site2 e1 e2 s z r,
+  err_ok Windows e1 = true -> err_ok Windows e2 = true ->
+  pair_demanded Windows meth site1 site2 e1 e2 s z = Some r -> pair_outcome Windows meth site1 site2 e1 e2 s z = r.
+Proof.
+  intros meth site1 site2 e1 e2 s z r H1 H2 Hd.
+  pose proof (pair_windows_b meth site1 site2 e1 e2 s z) as H. rewrite H1, H2, Hd in H.
+  apply res_eqb_eq. exact (H eq_refl).
+Qed.
+
+Lemma pair_sunos : forall meth site1 site2 e1 e2 s z r,
+  err_ok SunOS e1 = true -> err_ok SunOS e2 = true -> pair_known SunOS meth site1 site2 e1 e2 s z = false ->
+  pair_demanded SunOS meth site1 site2 e1 e2 s z = Some r -> pair_outcome SunOS meth site1 site2 e1 e2 s z = r.
+Proof.
+  intros meth site1 site2 e1 e2 s z r H1 H2 Hk Hd.
+  unfold pair_demanded, second_route, pair_outcome, pair_known, known_pid0_unlisted, demanded, recovery, contract,
+    nosuch_failure, method_outcome, inner in *.
+  destruct (g_sunos_cred meth site1), (seq site2 "proc_basic_info"), (g_sunos_exe meth site1), (g_sunos_path meth site1),
+    (g_sunos_thread meth site1); case_pair.
+Qed.
+
+Theorem pair_model : forall p meth site1 site2 e1 e2 s z r,
+  err_ok p e1 = true -> err_ok p e2 = true -> pair_known p meth site1 site2 e1 e2 s z = false ->
+  pair_demanded p meth site1 site2 e1 e2 s z = Some r -> pair_outcome p meth site1 site2 e1 e2 s z = r.
+Proof.
+  intros p meth site1 site2 e1 e2 s z r H1 H2 Hk Hd.
+  destruct p; try (apply pair_windows; assumption); try (apply pair_sunos; assumption);
+    (unfold pair_known in Hk; apply orb_false_iff in Hk as [Hk1 _];
+     unfold pair_demanded, second_route in Hd; unfold pair_outcome;
+     apply ladder_model; assumption).
+Qed.
+
+Lemma known_pid0_windows meth site c : known_pid0_unlisted Windows meth site c = false.
+Proof. unfold known_pid0_unlisted. apply andb_false_r. Qed.
+
+Theorem retry_model : forall meth site k then_ s z r,
+  (forall e, then_ = Some e -> err_ok Windows e = true) ->
+  retry_demanded meth site k then_ s z = Some r -> retry_outcome meth site k then_ s z = r.
+Proof.
+  intros meth site k then_ s z r He Hd. unfold retry_demanded, retry_outcome in *.
+  destruct (g_win_partial meth).
+  - destruct (33 <=? k); [congruence|]. destruct then_ as [e|]; [|congruence].
+    apply ladder_model; [apply (He e eq_refl) | apply known_pid0_windows | exact Hd].
+  - apply ladder_model; [reflexivity | apply known_pid0_windows | exact Hd].
+Qed.
+
+Theorem wait_model : forall p w s,
+  (w = WNativeTimeout -> p = Windows) -> wait_outcome p w s = wait_demanded p w s.
+Proof.
+  intros p w s H. destruct w; destruct p; try reflexivity; specialize (H eq_refl); discriminate.
+Qed.
+
+Example pair_nontrivial :
+  pair_demanded Windows "cpu_times" "proc_times" "proc_info" WACCESS ESRCH Gone false = Some RNoSuch
+  /\ pair_demanded Windows "cmdline" "proc_cmdline[peb]" "proc_cmdline[nopeb]" EACCES WPARTIAL Alive false = Some RDenied
+  /\ pair_demanded SunOS "uids" "proc_cred" "proc_basic_info" EPERM EIO Alive false = Some RRaw
+  /\ retry_demanded "cwd" "proc_cwd" 32 None Alive false = Some RVal
+  /\ retry_demanded "cwd" "proc_cwd" 33 None Alive false = Some RDenied.
+Proof. vm_compute. auto 10. Qed.
+
+Lemma pair_tables_ok :
+  forallb pblock_ok pair_blocks && pblocks_complete pair_blocks && forallb rrow_ok retry_rows
+  && forallb wrow_ok wait_rows && wrows_complete wait_rows = true.
+Proof. vm_compute. reflexivity. Qed.
+
+Theorem pair_contract : forall b, In b pair_blocks ->
+  Forall2 (fun q g => match q with (e1, e2, s, z) =>
+             (pair_known (pb_plat b) (pb_meth b) (pb_site1 b) (pb_site2 b) e1 e2 s z = false ->
+              gout_ok (pair_demanded (pb_plat b) (pb_meth b) (pb_site1 b) (pb_site2 b) e1 e2 s z) g = true)
+             /\ gout_ok (Some (pair_outcome (pb_plat b) (pb_meth b) (pb_site1 b) (pb_site2 b) e1 e2 s z)) g = true end)
+          (pair_conds (pb_plat b)) (pb_outs b).
+Proof.
+  intros b Hin. pose proof pair_tables_ok as H. repeat (apply andb_true_iff in H as [H _]).
+  pose proof (proj1 (forallb_forall _ _) H b Hin) as Hb. unfold pblock_ok in Hb. apply forallb2_Forall2 in Hb.
+  eapply Forall2_imp; [|exact Hb]. cbv beta. intros [[[e1 e2] s] z] g Hq.
+  apply andb_true_iff in Hq as [Ha Hm]. split; [|exact Hm]. intro Hk. rewrite Hk in Ha. exact Ha.
+Qed.
+
+Theorem pair_blocks_complete : pblocks_complete pair_blocks = true.
+Proof. pose proof pair_tables_ok as H. repeat (apply andb_true_iff in H as [H ?]). assumption. Qed.
+
+Theorem retry_rows_ok : forall r, In r retry_rows -> rrow_ok r = true.
+Proof.
+  intros r Hin. pose proof pair_tables_ok as H. apply andb_true_iff in H as [H _]. apply andb_true_iff in H as [H _].
+  apply andb_true_iff in H as [_ H]. exact (proj1 (forallb_forall _ _) H r Hin).
+Qed.
+
+Theorem wait_rows_ok : (forall r, In r wait_rows -> wrow_ok r = true) /\ wrows_complete wait_rows = true.
+Proof.
+  pose proof pair_tables_ok as H. apply andb_true_iff in H as [H Hc]. apply andb_true_iff in H as [_ H].
+  split; [|exact Hc]. intros r Hin. exact (proj1 (forallb_forall _ _) H r Hin).
+Qed.
